@@ -92,7 +92,7 @@ func hostsString(hs []hostT) string {
 	return "[" + strings.Join(it, " ") + "]"
 }
 
-var lbCodes = map[string]int{"LB_RANDOM": 1, "LB_ROUNDROBIN": 2, "LB_LEAST_REQUEST": 3, "": 0}
+var lbCodes = map[string]int{"LB_RANDOM": 1, "LB_ROUNDROBIN": 2, "LB_LEAST_REQUEST": 3, "": 0, "LB_BOGUS": 4}
 var lbNames = []string{"LB_RANDOM", "LB_ROUNDROBIN", "LB_LEAST_REQUEST"}
 
 func hostsV2(hosts []hostT) []v2.Host {
@@ -266,7 +266,7 @@ func c12(args []string) int {
 	rm := router.GetRoutersMangerInstance()
 	cvt := conv.NewConverter()
 	g := &rtGen{r: r, keepIDs: true}
-	run.Sum.Rule = "operation histories of 4-25 operations (quick: 300 histories, thorough: 2400) over 2 router names, 2 cluster names and 1 unknown name per history: AddOrUpdateRouters (generated configurations as in C04, ~20% rejected), AddRoute / RemoveAllRoutes (domains: configured ones, other hosts, mixed case, empty, malformed; 8% unbuildable routes), AddOrUpdatePrimaryCluster, AddOrUpdateClusterAndHost, RemovePrimaryCluster (1-2 names, unknown ones included), Update/Append/RemoveClusterHosts (hosts = address from a pool of 6 + weight, hostname, tls_disable, metadata; duplicates inside a batch; 12% of the operations re-append and a third of the updates re-send addresses that are already present with other attributes; removal of a present address followed later by its re-append), and ConvertUpdateEndpoints with real ClusterLoadAssignment protos of 0-3 localities (optional load_balancing_weight incl. 0 and 500, an address repeated in a later locality with another weight); then a battery of requests per router name and the hosts WITH their attributes (Weight(), Hostname(), Metadata(), Config()) and lb type per cluster name are read from the real managers, from clusters rebuilt from the dump, and from the dumped host entries themselves.  Non-trivial: a history in which some object was updated at least twice; distinct by (history number, seed)."
+	run.Sum.Rule = "operation histories of 4-25 operations (quick: 300 histories, thorough: 2400) over 2 router names, 2 cluster names and 1 unknown name per history: AddOrUpdateRouters (generated configurations as in C04, ~20% rejected), AddRoute / RemoveAllRoutes (domains: configured ones, other hosts, mixed case, empty, malformed; 8% unbuildable routes), AddOrUpdatePrimaryCluster, AddOrUpdateClusterAndHost, RemovePrimaryCluster (1-2 names, unknown ones included), Update/Append/RemoveClusterHosts (hosts = address from a pool of 6 + weight, hostname, tls_disable, metadata; duplicates inside a batch; 12% of the operations re-append and a third of the updates re-send addresses that are already present with other attributes; removal of a present address followed later by its re-append), and ConvertUpdateEndpoints with real ClusterLoadAssignment protos of 0-3 localities (optional load_balancing_weight incl. 0 and 500, an address repeated in a later locality with another weight); after EVERY operation the object it addresses is fingerprinted (live / wrapper configuration / dump) and the live object is compared with one rebuilt from the dump; 45% of the router updates after the first are degenerate (no virtual hosts, nil route lists, duplicate default, unparsable regex), mostly aimed at routers that exist, 12% of the later cluster updates use an unknown lb type or the empty name; then a battery of requests per router name and the hosts WITH their attributes (Weight(), Hostname(), Metadata(), Config()) and lb type per cluster name are read from the real managers, from clusters rebuilt from the dump, and from the dumped host entries themselves.  Non-trivial: a history in which some object was updated at least twice; distinct by (history number, seed)."
 	header := "From MV Require Import Model.Router Model.Update Gen.EndpointSrc.\nFrom Coq Require Import List String.\nImport ListNotations.\nOpen Scope string_scope.\n"
 	sh := run.NewShard(header, "up_case", "up_mismatches endpoints_update_per_locality")
 	weight := 0
@@ -276,15 +276,17 @@ func c12(args []string) int {
 		rnames := []string{pfx + "r0", pfx + "r1"}
 		cnames := []string{pfx + "c0", pfx + "c1"}
 		unknown := pfx + "zz"
+		allCNames := []string{cnames[0], cnames[1], unknown, ""}
 		g.rid, g.did = 0, 0
 		var allRoutes []rtT // every route that appears in the history (for the regex oracle)
 		var ops []opT
 		nops := 4 + r.Intn(22)
 		nadd := 0
 		var lastDomains []string
+		var rexisting []string // router names that have been added so far
 		// the generator's own bookkeeping of which clusters exist and which addresses they hold (only used to aim operations)
 		exists := map[string]bool{}
-		present := map[string]map[string]bool{cnames[0]: {}, cnames[1]: {}, unknown: {}}
+		present := map[string]map[string]bool{cnames[0]: {}, cnames[1]: {}, unknown: {}, "": {}}
 		setPresent := func(name string, hs []hostT) {
 			present[name] = map[string]bool{}
 			for _, h := range hs {
@@ -308,7 +310,42 @@ func c12(args []string) int {
 			switch x := r.Intn(100); {
 			case x < 12 || k == 0:
 				c := g.config()
-				o = opT{Kind: "routers", Name: pickR(), Config: c}
+				name := pickR()
+				if k > 0 && r.Pct(45) {
+					// a degenerate or invalid update, mostly of a router that exists already
+					if len(rexisting) > 0 && r.Pct(80) {
+						name = rexisting[r.Intn(len(rexisting))]
+					}
+					switch r.Intn(5) {
+					case 0, 1: // no virtual hosts at all (what the RDS listener conversion sends as a placeholder)
+						c = cfgT{}
+					case 2: // virtual hosts without route lists
+						for i := range c {
+							c[i].Routes = nil
+						}
+					case 3: // two defaults
+						c = append(c, vhT{Name: "dup0", Domains: []string{"*"}}, vhT{Name: "dup1", Domains: []string{r.PickS([]string{"*", "*:*"})}})
+					default: // a route whose regex does not compile
+						g.rid++
+						bad := rtT{Regex: "(", RegexID: g.rid, Cluster: fmt.Sprintf("badre%d", k), Bad: true, BadRegex: true}
+						if len(c) == 0 {
+							c = cfgT{{Name: "vh0", Domains: []string{"re.test"}}}
+						}
+						i := r.Intn(len(c))
+						c[i].Routes = append(c[i].Routes, bad)
+					}
+					run.Sum.Distribution["gen:degenerate-router-update"]++
+				}
+				if name != unknown {
+					seen := false
+					for _, n := range rexisting {
+						seen = seen || n == name
+					}
+					if !seen {
+						rexisting = append(rexisting, name)
+					}
+				}
+				o = opT{Kind: "routers", Name: name, Config: c}
 				for _, vh := range c {
 					allRoutes = append(allRoutes, vh.Routes...)
 					lastDomains = append(lastDomains, vh.Domains...)
@@ -329,6 +366,14 @@ func c12(args []string) int {
 					name = cnames[k-1]
 				}
 				o = opT{Kind: "cluster", Name: name, Lb: r.PickS(lbNames), CfgHosts: pickHosts(r, 2)}
+				if k > 2 && r.Pct(12) { // degenerate cluster updates: unknown lb type, empty name
+					if r.Bool() {
+						o.Lb = "LB_BOGUS"
+					} else {
+						o.Name, name = "", ""
+					}
+					run.Sum.Distribution["gen:degenerate-cluster-update"]++
+				}
 				exists[name] = true
 			case x < 52:
 				o = opT{Kind: "cluster-hosts", Name: pickC(), Lb: r.PickS(lbNames), CfgHosts: pickHosts(r, 2), Hosts: pickHosts(r, 3)}
@@ -416,7 +461,23 @@ func c12(args []string) int {
 			ops = append(ops, o)
 		}
 
+		// ---- the request battery of this history
+		battery := make([]reqT, 0, 12)
+		for k := 0; k < 5; k++ {
+			battery = append(battery, g.request())
+		}
+		for _, d := range lastDomains {
+			if len(battery) >= 9 {
+				break
+			}
+			if r.Pct(40) {
+				q := g.request()
+				q.Vars[types.VarHost] = d
+				battery = append(battery, q)
+			}
+		}
 		// ---- apply to the real managers
+		var fps []string
 		results := make([]bool, len(ops))
 		touched := map[string]int{}
 		for k, o := range ops {
@@ -518,6 +579,22 @@ func c12(args []string) int {
 				}
 			}
 			results[k] = err == nil
+			// ---- after EVERY operation: fingerprint of the object it addresses (live, wrapper configuration, dump) for the
+			// Coq comparison, and (finder) live object vs object rebuilt from the dumped configuration
+			hrep := map[string]interface{}{"history": ops[:k+1], "op": k}
+			switch o.Kind {
+			case "routers", "add-route", "remove-routes":
+				fps = append(fps, coqNatList(routerFP(rm, o.Name)))
+				compareRouterWithDump(run, rm, o.Name, battery, hrep, true)
+			case "remove-clusters":
+				fps = append(fps, coqNatList(clusterFP(o.Names[0])))
+				for _, n := range o.Names {
+					compareClusterWithDump(run, n, hrep)
+				}
+			default:
+				fps = append(fps, coqNatList(clusterFP(o.Name)))
+				compareClusterWithDump(run, o.Name, hrep)
+			}
 			run.Sum.Distribution["op:"+o.Kind]++
 			if err != nil {
 				run.Sum.Distribution["op-error:"+o.Kind]++
@@ -525,20 +602,6 @@ func c12(args []string) int {
 		}
 
 		// ---- observe the live objects
-		battery := make([]reqT, 0, 12)
-		for k := 0; k < 5; k++ {
-			battery = append(battery, g.request())
-		}
-		for _, d := range lastDomains {
-			if len(battery) >= 9 {
-				break
-			}
-			if r.Pct(40) {
-				q := g.request()
-				q.Vars[types.VarHost] = d
-				battery = append(battery, q)
-			}
-		}
 		oracle := cfgT{{Routes: allRoutes}}
 		var robs, cobs []string
 		type liveAns struct {
@@ -573,7 +636,7 @@ func c12(args []string) int {
 			ok    bool
 		}
 		liveC := map[string]liveCl{}
-		for _, name := range append(append([]string(nil), cnames...), unknown) {
+		for _, name := range allCNames {
 			lb, hosts, ok := liveHosts(name)
 			liveC[name] = liveCl{lb, hosts, ok}
 			got := "None"
@@ -607,7 +670,7 @@ func c12(args []string) int {
 		})
 		configmanager.HandleMOSNConfig(configmanager.CfgTypeCluster, func(v interface{}) {
 			m, _ := v.(map[string]v2.Cluster)
-			for _, name := range append(append([]string(nil), cnames...), unknown) {
+			for _, name := range allCNames {
 				if cc, ok := m[name]; ok {
 					b, err := json.Marshal(cc)
 					var back v2.Cluster
@@ -652,7 +715,7 @@ func c12(args []string) int {
 			}
 			rdump = append(rdump, fmt.Sprintf("(%s, %s)", CoqString(name), CoqList(ls)))
 		}
-		for _, name := range append(append([]string(nil), cnames...), unknown) {
+		for _, name := range allCNames {
 			cc, inDump := dumpC[name]
 			l := liveC[name]
 			if inDump != l.ok {
@@ -718,7 +781,7 @@ func c12(args []string) int {
 			cops = append(cops, coqOp(o))
 			cres = append(cres, CoqBool(results[k]))
 		}
-		sh.Add(fmt.Sprintf("(%s,\n  %s,\n  %s,\n  %s,\n  %s,\n  %s)", CoqList(cops), CoqList(cres), CoqList(robs), CoqList(cobs), CoqList(rdump), CoqList(cdump)), rep)
+		sh.Add(fmt.Sprintf("(%s,\n  %s,\n  %s,\n  %s,\n  %s,\n  %s,\n  %s)", CoqList(cops), CoqList(cres), CoqList(fps), CoqList(robs), CoqList(cobs), CoqList(rdump), CoqList(cdump)), rep)
 		weight += len(ops) + len(battery)*6
 		if weight >= 900 {
 			sh.Close()
@@ -726,7 +789,7 @@ func c12(args []string) int {
 			weight = 0
 		}
 		// leave the singletons small
-		for _, n := range cnames {
+		for _, n := range allCNames {
 			cluster.GetClusterMngAdapterInstance().TriggerClusterDel(n)
 		}
 	}
@@ -755,4 +818,147 @@ func distinctAddrs(r *Rng, n int) []string {
 		n = len(perm)
 	}
 	return perm[:n]
+}
+
+// ---------------------------------------------------------------------------------------- dump access and per-operation checks
+
+// dumpedRouter / dumpedCluster: the configuration configmanager would dump for the name, through its JSON form
+func dumpedRouter(name string) (rc v2.RouterConfiguration, ok bool, err error) {
+	configmanager.HandleMOSNConfig(configmanager.CfgTypeRouter, func(v interface{}) {
+		m, _ := v.(map[string]v2.RouterConfiguration)
+		var in v2.RouterConfiguration
+		if in, ok = m[name]; ok {
+			var b []byte
+			if b, err = json.Marshal(in); err == nil {
+				err = json.Unmarshal(b, &rc)
+			}
+		}
+	})
+	return
+}
+
+func dumpedCluster(name string) (cc v2.Cluster, ok bool, err error) {
+	configmanager.HandleMOSNConfig(configmanager.CfgTypeCluster, func(v interface{}) {
+		m, _ := v.(map[string]v2.Cluster)
+		var in v2.Cluster
+		if in, ok = m[name]; ok {
+			var b []byte
+			if b, err = json.Marshal(in); err == nil {
+				err = json.Unmarshal(b, &cc)
+			}
+		}
+	})
+	return
+}
+
+func countRoutes(vhs []v2.VirtualHost) int {
+	n := 0
+	for _, vh := range vhs {
+		n += len(vh.Routers)
+	}
+	return n
+}
+
+// routerFP: [0 absent | 1 nil routers | 2 routers; virtual hosts, routes of the wrapper's configuration; in dump; virtual hosts, routes of the dump]
+func routerFP(rm types.RouterManager, name string) []int {
+	fp := []int{0, 0, 0, 0, 0, 0}
+	if w := rm.GetRouterWrapperByName(name); w != nil {
+		fp[0] = 1
+		if w.GetRouters() != nil {
+			fp[0] = 2
+		}
+		wc := w.GetRoutersConfig()
+		fp[1], fp[2] = len(wc.VirtualHosts), countRoutes(wc.VirtualHosts)
+	}
+	if rc, ok, err := dumpedRouter(name); ok && err == nil {
+		fp[3], fp[4], fp[5] = 1, len(rc.VirtualHosts), countRoutes(rc.VirtualHosts)
+	}
+	return fp
+}
+
+// clusterFP: [live; lb; hosts; in dump; lb; hosts]
+func clusterFP(name string) []int {
+	fp := []int{0, 0, 0, 0, 0, 0}
+	if lb, hosts, ok := liveHosts(name); ok {
+		fp[0], fp[1], fp[2] = 1, lbCodes[lb], len(hosts)
+	}
+	if cc, ok, err := dumpedCluster(name); ok && err == nil {
+		seen := map[string]bool{}
+		for _, h := range cc.Hosts {
+			seen[h.Address] = true
+		}
+		fp[3], fp[4], fp[5] = 1, lbCodes[string(cc.LbType)], len(seen)
+	}
+	return fp
+}
+
+// compareRouterWithDump (finder): the live router answers every request of the battery like a router built from the
+// dumped configuration; presence agrees
+func compareRouterWithDump(run *Run, rm types.RouterManager, name string, battery []reqT, rep interface{}, perOp bool) {
+	var liveR, fresh types.Routers
+	w := rm.GetRouterWrapperByName(name)
+	if w != nil {
+		liveR = w.GetRouters()
+	}
+	rc, inDump, err := dumpedRouter(name)
+	if err != nil {
+		run.Fail("c12:router-dump-unreadable", "the dumped router configuration cannot be read back: "+err.Error(), rep)
+		return
+	}
+	if (w != nil) != inDump {
+		run.Fail("c12:router-presence", fmt.Sprintf("router %s: live=%v, in dumped configuration=%v", name, w != nil, inDump), rep)
+	}
+	if inDump {
+		fresh, _ = router.NewRouters(&rc)
+	}
+	if (liveR == nil) != (fresh == nil) {
+		sig := "c12:router-live-differs-from-dump:live-router-but-dump-builds-none"
+		if liveR == nil {
+			sig = "c12:router-live-differs-from-dump:no-live-router-but-dump-builds-one"
+		}
+		run.Fail(sig, fmt.Sprintf("router %s: live routers present=%v, a router built from the dumped configuration (%d virtual hosts, %d routes) present=%v", name, liveR != nil, len(rc.VirtualHosts), countRoutes(rc.VirtualHosts), fresh != nil), rep)
+		return
+	}
+	if liveR == nil {
+		return
+	}
+	for _, q := range battery {
+		lo, lf, la := lookup(liveR, q)
+		fo, ff, fa := lookup(fresh, q)
+		if lo != fo || lf != ff || fmt.Sprint(la) != fmt.Sprint(fa) {
+			run.Fail("c12:router-live-differs-from-dump", fmt.Sprintf("router %s, request %v: live answers %q %v, a router built from the dumped configuration answers %q %v", name, q, lo, la, fo, fa), rep)
+			return
+		}
+	}
+}
+
+// compareClusterWithDump (finder): live lb type and hosts (with attributes) = those of a cluster built from the dump
+func compareClusterWithDump(run *Run, name string, rep interface{}) {
+	lb, hosts, live := liveHosts(name)
+	cc, inDump, err := dumpedCluster(name)
+	if err != nil {
+		run.Fail("c12:cluster-dump-unreadable", "the dumped cluster configuration cannot be read back: "+err.Error(), rep)
+		return
+	}
+	if live != inDump {
+		sig := "c12:cluster-presence"
+		if live {
+			sig = "c12:cluster-live-but-not-dumped"
+		}
+		run.Fail(sig, fmt.Sprintf("cluster %s: live=%v, in dumped configuration=%v", name, live, inDump), rep)
+		return
+	}
+	if !live {
+		return
+	}
+	fc := cluster.NewCluster(cc)
+	cluster.NewSimpleHostHandler(fc, cc.Hosts)
+	fh, _ := hostsOfSet(fc.Snapshot().HostSet())
+	if flb := string(fc.Snapshot().ClusterInfo().LbType()); flb != lb || hostsString(fh) != hostsString(hosts) {
+		sig := "c12:cluster-live-differs-from-dump"
+		if flb == lb && len(fh) == len(hosts) {
+			sig = "c12:cluster-live-differs-from-dump:host-attributes"
+		}
+		run.Fail(sig, fmt.Sprintf("cluster %s: live %s %s, built from the dumped configuration %s %s", name, lb, hostsString(hosts), flb, hostsString(fh)), rep)
+	}
 }
